@@ -1,2 +1,5 @@
 #!/bin/bash
-exec "$(dirname "$0")/../../../bin/mkoverlay.py" "$1" --lru --sync keystore/lru/cache.go keystore/filesystem/server_keystore.go keystore/v2/keystore/crypto/signature.go
+# file_lock.go: the in-process mutex of the directory back end's lock becomes a scheduling point and
+# flock(2) gets a seam (dirlock.go: a non-blocking attempt first, so that the real lock can be driven
+# by the scheduler / observed without waiting)
+exec "$(dirname "$0")/../../../bin/mkoverlay.py" "$1" --lru --sync keystore/lru/cache.go keystore/filesystem/server_keystore.go keystore/v2/keystore/crypto/signature.go keystore/v2/keystore/filesystem/backend/file_lock.go --flock keystore/v2/keystore/filesystem/backend/file_lock.go
